@@ -24,7 +24,9 @@ TRUSTED = ["hand-written models Model/Features.lean (lengths as sums of edge len
            "(exact on lattice trees whose edges are axis-aligned with integer length); partition_asymmetry is regenerated from lmeasure.py (Gen/LMeasureArith.lean)"]
 ASSUMPTIONS = ["square roots / float32 accumulation are outside the model (values compared with relative tolerance 1e-5)",
                "tortuosity is the library's documented ratio straight-line distance / path length (1 for a zero-length path)",
-               "arccos / degrees of the bifurcation angles are monotone externals: the oracle compares angles computed from the dot-product definition"]
+               "arccos / degrees of the bifurcation angles are monotone externals: the oracle compares angles computed from the dot-product definition",
+               "radii within a float32 place of a node distance (c10.shollnear) are asked as float64 lists / arrays / numpy scalars / Python floats on trees whose "
+               "distances are stored exactly (no rounding on either side)"]
 
 
 def lattice_tree(rng, n, shape):
@@ -604,7 +606,336 @@ class Closed(Suite):
         return True
 
 
-SUITES = [Features(), Angles(), Closed()]
+def _f32(v):
+    return float(np.float32(v))
+
+
+def _f32step(v, k):
+    """the float32 value k places above (k > 0) / below (k < 0) the positive float32 value v"""
+    x = np.float32(v)
+    for _ in range(abs(k)):
+        y = np.nextafter(x, np.float32(np.inf) if k > 0 else np.float32(0))
+        if not (y > 0 and np.isfinite(y)):
+            break
+        x = y
+    return float(x)
+
+
+def axis_tree(rng, n, shape, offset):
+    """any branching pattern; every node sits on a coordinate axis through the root, so its root distance IS the stored coordinate
+    difference — a float32 value the library obtains without any rounding (sqrt(fl(x*x)) = |x|).  Distances come from a small pool of
+    base values and their float32 neighbours (tips / turning points at equal and at adjacent representable distances; coincident
+    points and zero-length segments occur)."""
+    pids = gen.renumber_root0(rng, gen.parents_sorted(rng, n, shape))
+    n = len(pids)
+    if offset:       # root away from the origin: coordinates on a 2^-12 grid below 64 (sums and differences exact in float32)
+        root = [float(rng.randint(-3, 3)) for _ in range(3)]
+        bases = [rng.randint(1, 20 * 4096) / 4096.0 for _ in range(3)]
+        mag = lambda: max(1 / 4096.0, rng.choice(bases) + rng.choice([-1, 0, 0, 0, 1]) / 4096.0)
+    else:
+        root = [0.0, 0.0, 0.0]
+        fam = [lambda: float(rng.randint(1, 12)), lambda: rng.randint(1, 400) / 8.0, lambda: _f32(rng.uniform(0.05, 80.0)),
+               lambda: _f32(rng.uniform(1.0, 2.0)) * 2.0 ** rng.randint(-8, 12)]
+        bases = [rng.choice(fam)() for _ in range(3)]
+        mag = lambda: _f32step(rng.choice(bases), rng.choice([-2, -1, 0, 0, 0, 1, 2]))
+    xyz, dist = [root], [0.0]
+    for _ in range(1, n):
+        m = mag(); ax = rng.randrange(3); q = list(root); q[ax] = root[ax] + rng.choice([-1, 1]) * m
+        assert _f32(q[ax]) == q[ax] and abs(q[ax] - root[ax]) == m, "harness: axis tree coordinate is not exact in float32"
+        xyz.append(q); dist.append(m)
+    return {"n": n, "pids": pids, "types": [1] + [3] * (n - 1), "xyz": xyz, "r": [1.0] * n, "dist": dist}
+
+
+def radii_near(rng, dists, per_target=6):
+    """float64 radii next to node distances: on them, fractions of a float32 place below / above them (NOT representable in float32),
+    their float32 and float64 neighbours, the midpoints between adjacent float32 values; plus a few radii anywhere"""
+    ds = sorted({d for d in dists if d > 0})
+    targets = rng.sample(ds, min(4, len(ds)))
+    out = []
+    for d in targets:
+        below = d - _f32step(d, -1) or float(np.spacing(np.float32(d)))
+        above = _f32step(d, 1) - d
+        frac = lambda: rng.choice([0.25, 0.49, 0.125, 2.0 ** -rng.randint(3, 20), rng.uniform(0.01, 0.49)])
+        cand = [d, d - frac() * below, d + frac() * above]            # guaranteed: on the node, within half a place below, and above
+        pool = [d - frac() * below, d + frac() * above, d - 0.5 * below, d + 0.5 * above, d - rng.uniform(0.51, 0.99) * below,
+                d + rng.uniform(0.51, 0.99) * above, d - below, d + above, d - 1.5 * below, d + 1.5 * above,
+                float(np.nextafter(d, 0.0)), float(np.nextafter(d, np.inf)), d * (1 - 1e-8), d * (1 + 1e-8), d * (1 - 1e-6), d * (1 + 1e-6)]
+        cand += rng.sample(pool, max(0, per_target - 3))
+        out += [r for r in cand if r > 0]
+    top = max(ds) if ds else 1.0
+    out += [rng.uniform(0, 1.2 * top) for _ in range(2)] + [2.5 * top]
+    out = list(dict.fromkeys(out))
+    rng.shuffle(out)
+    return out
+
+
+def sholl_exact(t, radii):
+    """the definition on the stored coordinates in exact rational arithmetic: segment (parent, child) is crossed at r iff
+    min(dp, dc) ≤ r < max(dp, dc)"""
+    P = [[Fraction(c) for c in q] for q in t["xyz"]]
+    d2 = [sum((P[i][k] - P[0][k]) ** 2 for k in range(3)) for i in range(t["n"])]
+    out = []
+    for r in radii:
+        r2 = Fraction(r) ** 2
+        out.append(sum(1 for i in range(1, t["n"]) if min(d2[i], d2[t["pids"][i]]) <= r2 < max(d2[i], d2[t["pids"][i]])))
+    return out
+
+
+class ShollNear(Suite):
+    """the Sholl count "at any radius": caller-supplied float64 radii that lie a fraction of a float32 place away from the root distance
+    of a node (and on it, and on its float32 / float64 neighbours).  The trees are axis trees: every distance is stored exactly, the
+    definition is evaluated in rational arithmetic, so there is no tolerance in this suite — the answer at each radius is determined."""
+    name = "c10.shollnear"
+
+    def cases(self, rng, tier, widen):
+        out = []
+        big = tier == "thorough" or widen
+        k = 0
+        for n in [2, 3, 4, 5, 7, 10] + ([20, 40, 120] if big else []):
+            for rep in range(4 if not big else 10):
+                shape = gen.SHAPES[1:][k % (len(gen.SHAPES) - 1)]; k += 1
+                offset = rep % 4 == 3
+                t = axis_tree(rng, n, shape, offset)
+                case = {"class": shape + ("/offset-root" if offset else "/origin-root"), "tree": t, "radii": radii_near(rng, t["dist"])}
+                if rep % 2 == 0:        # the same radii asked of a population: the other tree has distances next to them, too
+                    t2 = axis_tree(rng, rng.choice([2, 3, 5]), "random", False)
+                    t2["xyz"] = [[0.0, 0.0, 0.0]] + [[(1 if c > 0 else -1) * _f32step(rng.choice(t["dist"][1:]), rng.choice([-1, 0, 1])) if c != 0 else 0.0 for c in q]
+                                                      for q in t2["xyz"][1:]]
+                    t2["dist"] = [max(abs(c) for c in q) for q in t2["xyz"]]
+                    case["other"] = t2
+                out.append(case)
+        return out
+
+    def run(self, case):
+        from swcgeom.analysis import Sholl, extract_feature
+        from swcgeom.core import Population
+
+        t = gen.make_tree(case["tree"])
+        assert np.array_equal(t.xyz().astype(np.float64), np.array(case["tree"]["xyz"], dtype=np.float64)), "harness: coordinates not exact in float32"
+        rs = [float(r) for r in case["radii"]]
+        res = {}
+        with warnings.catch_warnings():
+            warnings.simplefilter("ignore")
+            sh = Sholl(t)
+            res["get_list"] = [int(v) for v in sh.get(steps=rs)]
+            res["get_array"] = [int(v) for v in sh.get(steps=np.array(rs, dtype=np.float64))]
+            # numpy float64 scalars (what iterating an array of radii gives) and bare Python floats (the annotated argument type; a "weak"
+            # scalar for NumPy ≥ 2, which the library must not let numpy round to the float32 precision of the stored distances: D29)
+            res["intersect"] = [int(sh.intersect(np.float64(r))) for r in rs]
+            res["intersect_py"] = [int(sh.intersect(float(r))) for r in rs]
+            fe = extract_feature(t)
+            res["fe"] = [float(v) for v in fe.get("sholl", steps=rs)]
+            res["fe_list"] = [float(v) for v in fe.get([("sholl", {"steps": rs})])[0]]
+            if "other" in case:
+                rows = extract_feature(Population([t, gen.make_tree(case["other"])])).get("sholl", steps=rs)
+                res["pop"] = [[float(v) for v in row] for row in np.asarray(rows)]
+        return res
+
+    def oracle(self, case, res):
+        t = case["tree"]
+        if "exc" in res:
+            return [("features-raise", f"{res['exc']}: {res.get('msg')} on pids={t['pids']}")]
+        rs = case["radii"]
+        want = sholl_exact(t, rs)
+        out = []
+
+        def chk(key, got, want_, tree, what):
+            got = [int(v) if float(v) == int(v) else v for v in got]
+            if got == want_:
+                return
+            if len(got) != len(want_):
+                out.append((key, f"{what}: {len(got)} counts for {len(want_)} radii (pids={tree['pids']})")); return
+            j = next(i for i in range(len(got)) if got[i] != want_[i])
+            near = min((d for d in tree["dist"]), key=lambda d: abs(d - rs[j]))
+            out.append((key, f"{what}: {got[j]} intersections at radius {rs[j]!r}, the definition (min(dp,dc) <= r < max(dp,dc), exact) gives {want_[j]}; "
+                             f"nearest node distance {near!r} (r - d = {rs[j] - near:.3g}); pids={tree['pids']} distances={tree['dist']}"))
+        chk("sholl", res["get_list"], want, t, "Sholl.get(steps=[radii])")
+        chk("sholl", res["get_array"], want, t, "Sholl.get(steps=float64 array)")
+        chk("sholl-intersect", res["intersect"], want, t, "Sholl.intersect(float64 radius)")
+        chk("sholl-intersect", res["intersect_py"], want, t, "Sholl.intersect(python float radius)")
+        chk("extract-single", res["fe"], want, t, "extract_feature(tree).get('sholl', steps=radii)")
+        chk("extract-forms", res["fe_list"], want, t, "extract_feature(tree).get([('sholl', {steps: radii})])")
+        if "pop" in res:
+            if len(res["pop"]) != 2:
+                out.append(("extract-population", f"{len(res['pop'])} Sholl rows for a population of 2 trees"))
+            else:
+                chk("extract-population", res["pop"][0], want, t, "extract_feature(population).get('sholl', steps=radii), row of tree 0")
+                chk("extract-population", res["pop"][1], sholl_exact(case["other"], rs), case["other"], "extract_feature(population).get('sholl', steps=radii), row of tree 1")
+        return out[:4]
+
+    def nontrivial(self, case, res):
+        return case["tree"]["n"] >= 3
+
+
+PLAIN_FEATURES = ["length", "node_count", "tip_count", "furcation_count", "branch_length", "path_length", "node_radial_distance", "tip_radial_distance"]
+
+
+class Requests(Suite):
+    """one extractor object, many requests: what the front end returns is a function of the object measured and of the request — not of
+    what was requested before.  ONE extract_feature(...) object of a tree / a Population / a Populations is asked a sequence of features:
+    the same feature again, the same feature with OTHER keyword values (Sholl radii lists of equal and of different length, step counts,
+    the default), other features in between, in the three calling forms; some returned arrays are overwritten in place by the caller
+    before the next request.  Every answer is compared with the definition, evaluated for the arguments of THAT request."""
+    name = "c10.requests"
+
+    def cases(self, rng, tier, widen):
+        out = []
+        big = tier == "thorough" or widen
+        kinds = ["population", "tree", "population", "populations"]
+        for k in range(20 if not big else 80):
+            kind = kinds[k % 4]
+            shapes = [s for s in gen.SHAPES if s != "single"]
+            mk = lambda: lattice_tree(rng, rng.choice([2, 3, 5, 8, 12] + ([30] if big else [])), rng.choice(shapes))
+            if kind == "tree":
+                groups = [[mk()]]
+            elif kind == "population":
+                groups = [[mk() for _ in range(rng.choice([1, 2, 2, 3, 4]))]]
+            else:
+                groups = [[mk() for _ in range(rng.randint(1, 3))] for _ in range(rng.randint(2, 3))]
+            # radii² = integer + ½ (no node of a lattice tree within 1e-2 of the radius) and perfect squares (on nodes, exact)
+            def radii2(m):
+                v = [rng.randint(0, 45) + 0.5 for _ in range(m)]
+                if rng.random() < 0.5:
+                    v[rng.randrange(m)] = float(rng.choice([1, 4, 9, 16, 25]))
+                return v
+            m = rng.randint(2, 6)
+            first = radii2(m)
+            reqs = [["sholl", {"r2": first}], ["sholl", {"r2": radii2(m)}],                       # same length, other radii
+                    ["sholl", {"r2": radii2(rng.choice([x for x in range(1, 8) if x != m]))}],    # other length
+                    ["sholl", {"r2": first}],                                                      # the first radii again
+                    ["sholl", {"steps": rng.choice([1, 2, 4])}], ["sholl", {"steps": rng.choice([7, 12, 20])}], ["sholl", {}]]
+            reqs = rng.sample(reqs, rng.randint(4, len(reqs)))
+            if not any("r2" in kw and kw["r2"] != first for _, kw in reqs):
+                reqs.append(["sholl", {"r2": radii2(m)}])
+            if not any(kw.get("r2") == first for _, kw in reqs):
+                reqs.insert(0, ["sholl", {"r2": first}])
+            for _ in range(rng.randint(2, 4)):
+                f = rng.choice(PLAIN_FEATURES)
+                reqs.insert(rng.randint(0, len(reqs)), [f, {}])
+                if rng.random() < 0.5:
+                    reqs.insert(rng.randint(0, len(reqs)), [f, {}])                               # and the same one again, somewhere
+            reqs = [{"feat": f, "kw": kw, "form": rng.choice(["kw", "kw", "list", "dict"]), "scribble": rng.random() < 0.3} for f, kw in reqs]
+            out.append({"class": kind, "kind": kind, "groups": groups, "requests": reqs})
+        return out
+
+    def run(self, case):
+        from swcgeom.analysis import extract_feature
+        from swcgeom.core import Population, Populations
+
+        trees = [[gen.make_tree(t) for t in g] for g in case["groups"]]
+        with warnings.catch_warnings():
+            warnings.simplefilter("ignore")
+            if case["kind"] == "tree":
+                ex = extract_feature(trees[0][0])
+            elif case["kind"] == "population":
+                ex = extract_feature(Population(trees[0]))
+            else:
+                ex = extract_feature(Populations([Population(g) for g in trees]))
+            answers = []
+            for q in case["requests"]:
+                kw = {}
+                if "r2" in q["kw"]:
+                    kw["steps"] = [math.sqrt(v) for v in q["kw"]["r2"]]
+                elif "steps" in q["kw"]:
+                    kw["steps"] = int(q["kw"]["steps"])
+                if q["form"] == "kw":
+                    a = ex.get(q["feat"], **kw)
+                elif q["form"] == "list":
+                    a = ex.get([(q["feat"], kw)])[0]
+                else:
+                    a = ex.get({q["feat"]: kw})[q["feat"]]
+                answers.append(np.asarray(a).astype(float).tolist())
+                if q["scribble"] and isinstance(a, np.ndarray) and a.size:      # the caller owns what was returned to it
+                    a[...] = -7
+        return {"answers": answers}
+
+    def oracle(self, case, res):
+        if "exc" in res:
+            return [("features-raise", f"{res['exc']}: {res.get('msg')} for requests {[(q['feat'], q['kw']) for q in case['requests']]}")]
+        out = []
+        close = lambda a, b: abs(a - b) <= 2e-5 * max(1.0, abs(b))
+        groups = case["groups"]
+        flat = [t for g in groups for t in g]
+        trs = {id(t): truth(t) for t in flat}
+        rad = {id(t): np.linalg.norm(np.array(t["xyz"], dtype=np.float64) - np.array(t["xyz"][0], dtype=np.float64), axis=1) for t in flat}
+        rmax = max(float(rad[id(t)].max()) for t in flat)       # the radii of a step count are common to the whole request
+
+        def cnt(t, r):
+            d, p = rad[id(t)], t["pids"]
+            return sum(1 for i in range(1, t["n"]) if (d[p[i]] <= r < d[i]) or (d[i] <= r < d[p[i]]))
+
+        def row_ok(t, q, row, width):
+            """(ok, expected) for the row of one tree, zero-padded to `width`"""
+            tr, f, kw = trs[id(t)], q["feat"], q["kw"]
+            if f == "sholl" and "r2" in kw:
+                want = [float(cnt(t, math.sqrt(v))) for v in kw["r2"]]
+                return row == want, want
+            if f == "sholl":
+                k = int(kw.get("steps", 20))
+                s_ = rmax / (k + 1)
+                rs = list(np.arange(s_, rmax, s_))
+                if abs(len(row) - len(rs)) > 1:
+                    return False, f"{len(rs)} counts (radii s, 2s, … below the farthest node, s = rmax / (steps + 1))"
+                if len(row) != len(rs):
+                    return True, None       # the last radius is the farthest node up to rounding
+                for g, r in zip(row, rs):   # compared where no node sits within 1e-5 of the radius
+                    lo, hi = cnt(t, r * (1 - 1e-5)), cnt(t, r * (1 + 1e-5))
+                    if lo == hi and g != lo:
+                        return False, f"{lo} at radius {r}"
+                return True, None
+            n = t["n"]
+            tips = [i for i in range(n) if i not in t["pids"]]
+            want = {"length": [tr["length"]], "node_count": [float(n)], "tip_count": [float(tr["counts"]["tip"])],
+                    "furcation_count": [float(tr["counts"]["furcation"])], "branch_length": tr["branch_length"], "path_length": tr["path_length"],
+                    "node_radial_distance": tr["radial"], "tip_radial_distance": sorted(tr["radial"][i] for i in tips)}[f]
+            if len(row) < len(want) or any(v != 0 for v in row[len(want):]):
+                return False, list(want) + [0.0] * (width - len(want))
+            got = row[:len(want)]
+            if f != "node_radial_distance":
+                got = sorted(got)
+            return all(close(a, b) for a, b in zip(got, want)), list(want) + [0.0] * (width - len(want))
+
+        def say(q):
+            kw = q["kw"]
+            a = "steps=" + str([round(math.sqrt(v), 4) for v in kw["r2"]]) if "r2" in kw else ("steps=%d" % kw["steps"] if "steps" in kw else "")
+            return f"{q['feat']}({a})"
+
+        for j, (q, ans) in enumerate(zip(case["requests"], res["answers"])):
+            before = ", ".join(say(p) + ("[returned array overwritten by the caller]" if p["scribble"] else "") for p in case["requests"][:j]) or "nothing"
+            where = f"request #{j} {say(q)} ({q['form']} form) to one extract_feature({case['kind']}) object, after {before}"
+            key = f"extract-{'single' if case['kind'] == 'tree' else case['kind']}" + ("-again" if j else "")
+            if case["kind"] == "tree":
+                rows, owners = [ans], [flat[0]]
+                shape_ok = isinstance(ans, list) and all(not isinstance(v, list) for v in ans)
+            elif case["kind"] == "population":
+                rows, owners = ans, flat
+                shape_ok = isinstance(ans, list) and len(ans) == len(flat) and all(isinstance(r, list) for r in ans)
+            else:
+                shape_ok = (isinstance(ans, list) and len(ans) == len(groups) and all(isinstance(b, list) and len(b) == max(len(g) for g in groups) for b in ans)
+                            and all(isinstance(r, list) for b in ans for r in b))
+                rows, owners = [], []
+                if shape_ok:
+                    for b, g in zip(ans, groups):
+                        rows += b[:len(g)]; owners += g
+                        if any(v != 0 for r in b[len(g):] for v in r):
+                            out.append((key, f"{where}: a row beyond the trees of a population is not zero: {b[len(g):]}"))
+            if not shape_ok:
+                out.append((key, f"{where}: answer of the wrong shape {str(ans)[:160]} — expected one row per tree ({[len(g) for g in groups]} trees)")); continue
+            width = max(len(r) for r in rows)
+            if any(len(r) != width for r in rows):
+                out.append((key, f"{where}: rows of different length")); continue
+            for i, (t, row) in enumerate(zip(owners, rows)):
+                ok, want = row_ok(t, q, row, width)
+                if not ok:
+                    out.append((key, f"{where}: row of tree {i} is {str(row)[:160]}, the definition gives {str(want)[:160]} (pids={t['pids']}, xyz={t['xyz']})"))
+                    break
+        return out[:4]
+
+    def nontrivial(self, case, res):
+        return sum(t["n"] for g in case["groups"] for t in g) >= 6
+
+
+SUITES = [Features(), Angles(), Closed(), ShollNear(), Requests()]
 TECHNIQUE = ("Lean 4 theorems about the feature models (tree length = Σ edge lengths = Σ branch lengths via C08's edge partition; path length = path distance of its tip; "
              "counts, branch order, terminal degree, Sholl straddle count read off their definitions; partition asymmetry REGENERATED from lmeasure.py; zero-padded "
              "population rows) + differential correspondence (exact on integer-edge lattice trees) + an oracle computing every quantity from its definition in float64")
